@@ -19,23 +19,29 @@ def load_harnesses():
         return []
 
 
-QUICK_MAX = 120
+QUICK_BUDGET_S = 600   # summed measured CBMC seconds per property in the quick tier (run 8-way parallel, both modes)
 A1_WITH = ('C01', 'C06')
 A1_THOROUGH = ('C02', 'C03', 'C05', 'C07', 'C08', 'C09', 'C10', 'C11', 'C13', 'C15', 'C16', 'C17', 'C18', 'C19', 'C20', 'C04')
 
 
 def select(pid=None, tier='quick', fn_key=None, seed=0):
     out = _select_all(pid, tier, fn_key)
-    if tier == 'quick' and len(out) > QUICK_MAX:
-        # the quick tier runs a seed-chosen sample of the cheap harnesses plus every harness tied to a
-        # recorded finding; the thorough tier runs all of them
+    if tier == 'quick' and sum(h.get('est_s', 5) for h in out) > QUICK_BUDGET_S:
+        # the quick tier runs a seed-chosen sample of the cheap harnesses within a CPU budget, plus every harness
+        # tied to a recorded finding; the thorough tier runs all of them
         import random
         keep = [h for h in out if h.get('expected') == 'fails' or h.get('always')]
         rest = [h for h in out if not (h.get('expected') == 'fails' or h.get('always'))]
         rnd = random.Random(seed)
         rnd.shuffle(rest)
-        out = keep + rest[:max(0, QUICK_MAX - len(keep))]
-        out.sort(key=lambda h: h['name'])
+        spent = sum(h.get('est_s', 5) for h in keep)
+        for h in rest:
+            c = max(h.get('est_s', 5), 0.2)
+            if spent + c > QUICK_BUDGET_S:
+                continue
+            keep.append(h)
+            spent += c
+        out = sorted(keep, key=lambda h: h['name'])
     return out
 
 
